@@ -213,7 +213,7 @@ def analyse(sc, res):
             if closed_by_others:
                 stats["closed_by_caller_activity"] += 1
                 continue
-            expect = {"aborted": "aborted", "skipped": "skipped", "error": "error"}.get(cstate, "completed")
+            expect = ACT_END.get(cstate, "completed")
             if t["state"] != expect:
                 bad.append((f"return-state|child-{cstate}", f"child {child} ended {cstate} but call {a['id']} of {pid} is {t['state']} (expected {expect})"))
                 continue
@@ -255,6 +255,16 @@ def analyse(sc, res):
     return bad, stats
 
 
+# child's final state -> state written on the calling act; filled from the Lean definition `Subflow.actEnd` (translated return table)
+ACT_END = {}
+
+
+def load_act_end(ctx):
+    states = ["completed", "submitted", "backed", "cancelled", "error", "aborted", "skipped", "removed"]
+    for st, an in zip(states, ctx.driver([{"cmd": "c15.actend", "child": st} for st in states], tag="da")):
+        ACT_END[st] = an["act"]
+
+
 def model_of(pid, sc):
     if pid == "p1":
         return "m1"
@@ -270,6 +280,7 @@ def model_of(pid, sc):
 
 def run(ctx):
     ctx.check_theorems("ActsModel.Props.C15")
+    load_act_end(ctx)
     n = 250 if ctx.tier == "quick" else 5000
     scs = [gen_scenario(ctx.seed, i, ctx.tier) for i in range(n)]
     results = ctx.harness("run", [{k: v for k, v in sc.items() if k not in ("calls", "pids")} for sc in scs])
@@ -302,6 +313,7 @@ def run(ctx):
 
 def replay(ctx, data):
     ctx.build([])
+    load_act_end(ctx)
     sc = data["replay"]["scenario"]
     res = ctx.harness("run", [{k: v for k, v in sc.items() if k not in ("calls", "pids")}])[0]
     print(analyse(sc, res))
